@@ -154,3 +154,16 @@ Definition cost (ev : event) : nat :=
   | EMerge _ _ _ _ => 3
   | _ => 1
   end.
+
+(* a merge that reports Invalid changed nothing *)
+Lemma merge_invalid_noop sw r e mid mau sw' ent :
+  sstep sw (EMerge r e mid mau) = Some (sw', OMerge MInvalid ent) -> sw' = sw.
+Proof. unfold sstep. destruct (alookup e (track_of sw r)) as [t|]; [|discriminate].
+  destruct (negb (valid (st (ww sw)) t)); [intros H; inversion H; reflexivity|].
+  destruct (step (ww sw) (AWitness r t)) as [w1|]; [|discriminate].
+  destruct (alookup e (locals (ww sw) r)) as [h|].
+  - destruct (Nat.eqb h t); [discriminate|]. destruct (is_anc (st (ww sw)) t h); [discriminate|].
+    destruct (is_anc (st (ww sw)) h t).
+    + destruct (step w1 (AFF r h t)); discriminate.
+    + destruct (step w1 (AWitness r h)) as [w2|]; [|discriminate]. destruct (step w2 (AMerge r h t mid mau)); discriminate.
+  - destruct (step w1 (AAdopt r t)); discriminate. Qed.
